@@ -94,7 +94,7 @@ var props = map[string]*propCfg{
 	"C19": {
 		ID: "C19", Scenario: "clock", Race: false, Synctest: true,
 		QuickRuns: 150000, ThorRuns: 2000000, QuickChunk: 500, ThorChunk: 2000, ChunkTimeoS: 1800,
-		Rule: "one evaluation = one simulated run: a seed-chosen process zone, a simulated wall clock and 5-200 operations on one runner: now()/toDay() with the clock placed anywhere in years 1-9999 or just before local midnight and ticking (0 .. 36 h, sometimes backwards) after every read inside the call; date(y,m,d) with months and days from -50 to +60; the eight field extractors, addDate with shifts up to +-400 years / +-5000 months and days, useTimezone against a simulated zone database with intact, missing, empty, torn and garbage files, timeFormat with numeric layouts, and date->extractor chains through locals; in a fifth of the runs 1-2 further callers with their own runners use the date builtins interleaved at statement level; parsed trees are kept and re-evaluated. A second engine runs the uninstrumented package inside testing/synctest bubbles (go1.26.8) and checks now()/toDay() against the bubble's fake clock. Oracles: wall-clock bracket of the call; independent days-from-civil arithmetic; the real time.LoadLocation under the same directory. Non-trivial: at least two operations; distinct = distinct hash of the operation list.",
+		Rule: "one evaluation = one simulated run: a seed-chosen process zone, a simulated wall clock and 5-200 operations on one runner: now()/toDay() with the clock placed anywhere in years 1-9999 or just before local midnight and ticking (0 .. 36 h, sometimes backwards) after every read inside the call; date(y,m,d) with months and days from -50 to +60; the eight field extractors, addDate with shifts up to +-400 years / +-5000 months and days, useTimezone against a simulated zone database with intact, missing, empty, torn and garbage files, timeFormat with numeric layouts, and date->extractor chains through locals; in a fifth of the runs 1-2 further callers with their own runners use the date builtins interleaved at statement level; parsed trees are kept and re-evaluated. A second engine runs the uninstrumented package inside testing/synctest bubbles (go1.26.8) and checks now()/toDay(), the eight field extractors and one far date(y,m,d) per step against the bubble's fake clock and the calendar oracle; that engine is built for linux/amd64 and for linux/386 (32-bit int). Oracles: wall-clock bracket of the call; independent days-from-civil arithmetic; the real time.LoadLocation under the same directory. Non-trivial: at least two operations; distinct = distinct hash of the operation list.",
 		Assumptions: []string{
 			"the UTC offset in force at an instant is taken from Go's time package (real tz parser, real zone files); everything else in the oracle is independent integer arithmetic",
 			"where a local wall time does not exist or is ambiguous (zone transition) either adjacent offset is accepted, as Go documents for time.Date",
